@@ -1024,6 +1024,7 @@ func (ds *Dataset) MapEntities(from string, count int, processEntity func(entity
 // MapEntities applies a function to all entities in the dataset. the entities are provided as raw json bytes
 // returns the id of the last entity so that it can be used as a continuation token
 func (ds *Dataset) MapEntitiesRaw(from string, count int, processEntity func(json []byte) error) (string, error) {
+	verifhook.Point(ds.store.database, "MapEntitiesRaw.begin")
 	lastKeyAsContinuationToken := ""
 
 	err := ds.store.database.View(func(txn *badger.Txn) error {
@@ -1135,6 +1136,7 @@ func (ds *Dataset) ProcessChangesRaw(
 	latestOnly bool,
 	processChangedEntity func(entityJson []byte) error,
 ) (uint64, error) {
+	verifhook.Point(ds.store.database, "ProcessChangesRaw.begin")
 	lastSeen := since
 	foundChanges := false
 
